@@ -27,7 +27,7 @@ def entry_spec(p, style, args_src="()", options=None, keep_path=None):
 def compile_case(case, root, store_dir, ref_paths_file):
     """-> list of (impl_seg, ref_seg, [indices of history steps])"""
     versions = case["versions"]
-    accept = sorted(set(v["pkg"] for v in versions))
+    accept = sorted(set(v["pkg"] for v in versions) | set(m for v in versions for m in gen.lazy_modules(v)))
     segs = []
     cur = None
     prev_v = None
@@ -56,6 +56,7 @@ def compile_case(case, root, store_dir, ref_paths_file):
             step["write"] = gen.render(p)
             step["how"] = "import"
             step["modules"] = gen.import_order(p)
+            step["lazy_modules"] = gen.lazy_modules(p)
         elif prev_v == st["v"]:
             step["how"] = "none"
         else:
@@ -70,6 +71,7 @@ def compile_case(case, root, store_dir, ref_paths_file):
                 step["write"] = gen.render(p)
                 step["how"] = "reload" if p["pkg"] == q["pkg"] else "import"
                 step["modules"] = gen.import_order(p)
+                step["lazy_modules"] = gen.lazy_modules(p)
         step["entry"] = entry_spec(p, st.get("style", "eval"), st.get("args_src") or case.get("entry_args", "()"), st.get("options"), st.get("keep_path"))
         for path in list(gen.kept_nodes(p)) + ([st["keep_path"]] if st.get("keep_path") else []):
             if path not in all_paths:
@@ -230,6 +232,10 @@ def oracle_values(case, obs, rep, pid="C01", classify=None):
                 rep.violate(what, {"case": case, "step": hi}, mechanism=classify(case, hi, feats) if classify else None, features=feats)
                 return hi
         else:
+            if b[1] in ("NameError", "ImportError", "ModuleNotFoundError", "SyntaxError", "IndentationError", "UnboundLocalError"):
+                # the generated program itself is broken (a generator defect, not an observation about dds)
+                rep.inconclusive.append("%s: the plain-Python reference raised %s(%s) at step %d" % (case.get("name"), b[1], b[2][:120], hi))
+                return hi
             if a[0] == "ok":
                 feats = step_features(case, hi)
                 feats["kind"] = "value-where-reference-raises"
